@@ -342,6 +342,8 @@ package smtp
 //@   ghostset c.readErr = old(c.readErr) || err != nil
 //@   modifies c.text.R.pos, c.text.R.iofail, c.text.R.unreadable, c.readErr
 //@   ensures c.text.R.pos >= old(c.text.R.pos) && c.readErr == (old(c.readErr) || err != nil)
+//@   ensures @C19 a-line-handed-to-the-command-loop-is-within-the-limit: err == nil && c.server.MaxLineLength > 0 ==> len(line) + 1 <= c.server.MaxLineLength
+//@   ensures @C19 what-a-read-error-cuts-short-is-not-a-line: c.text.R.iofail && !old(c.text.R.iofail) ==> err != nil
 
 //@ contract (*Conn).handleStartTLS(c)
 //@   prop C03 C08 C09 C10 C12
